@@ -133,7 +133,8 @@ fn gen_repr(pr: &mut Prng, g: Grp) -> Repr {
 fn gen_lambda(pr: &mut Prng, g: Grp) -> String {
     let q = model::q();
     let mut pick = |pr: &mut Prng| -> BigUint {
-        match pr.below(5) {
+        match pr.below(7) {
+            5 | 6 => crate::world_grp::special_fq(pr),
             0 => q - 1u32,
             1 => BigUint::from(2u32),
             _ => (from_be(&pr.bytes(32)) % (q - 1u32)) + 1u32,
@@ -540,6 +541,53 @@ pub fn exec8(spec: &Wire8Spec, prop: &str) -> RunResult {
     res
 }
 
+/// With x = s + t*u (u^2 = -2): Im(x^3 + 5u) = 3 s^2 t - 2 t^3 + 5, so for a chosen t the
+/// right-hand side is real iff s^2 = (2 t^3 - 5)/(3 t). Returns compressed (0x02 / 0x03),
+/// raw and uncompressed byte strings built from such x (and a root y, when one exists).
+fn g2_real_rhs_messages(pr: &mut Prng) -> Vec<Vec<u8>> {
+    let mut out = Vec::new();
+    for _ in 0..8 {
+        let t = match pr.below(3) {
+            0 => Q::from_u64(1 + pr.below(40)),
+            _ => Q::new(from_be(&pr.bytes(32))),
+        };
+        if t.is_zero() {
+            continue;
+        }
+        let t3 = t.sqr().mul(&t);
+        let num = t3.add(&t3).sub(&Q::from_u64(5));
+        let den = Q::from_u64(3).mul(&t);
+        let s2 = num.mul(&den.inv().unwrap());
+        let s = match s2.sqrt() {
+            Some(s) => s,
+            None => continue,
+        };
+        let s = if pr.chance(1, 2) { s } else { s.neg() };
+        let x = Q2 { c0: s, c1: t };
+        let rhs = x.sqr().mul(&x).add(&Q2::curve_b());
+        if !rhs.c1.is_zero() {
+            continue;
+        }
+        let xb = x.to_bytes();
+        for prefix in [2u8, 3u8] {
+            let mut m = vec![prefix];
+            m.extend_from_slice(&xb);
+            out.push(m);
+        }
+        if let Some(y) = rhs.sqrt() {
+            let raw = ref_encode(&(x.clone(), y.clone()), Fmt::Raw);
+            out.push(raw.clone());
+            let mut unc = vec![4u8];
+            unc.extend_from_slice(&raw);
+            out.push(unc);
+        }
+        if out.len() >= 8 {
+            break;
+        }
+    }
+    out
+}
+
 pub fn generate8(seed: u64, index: u64, thorough: bool) -> Wire8Spec {
     let mut pr = Prng::split(seed, "prog");
     let mut fr = Prng::split(seed, "fault");
@@ -610,6 +658,12 @@ pub fn generate8(seed: u64, index: u64, thorough: bool) -> Wire8Spec {
     }
     for l in [32usize, 33, 64, 65, 128, 129] {
         ops.push(Fault::Bytes { b: hex(&fr.bytes(l)) });
+    }
+    // G2 x-coordinates for which x^3 + 5u is a REAL element: its root is real (parity works as
+    // usual) or purely imaginary (both roots have an even real part, so prefix 0x03 can never be
+    // the encoding of a point): the degenerate corner of "parity of the real part of y"
+    for bytes in g2_real_rhs_messages(&mut fr) {
+        ops.push(Fault::Bytes { b: hex(&bytes) });
     }
     // a quarter of the G1 messages carry a point with a boundary x-coordinate (leading zero
     // limbs, top limb tied with q's, (-1, +-2), ...) instead of a multiple of the generator
